@@ -138,6 +138,19 @@ func (a *Analysis) unitFacts(st *CNF) []ufact {
 	return out
 }
 
+// unitFactsRaw: unit literals as they are (no rewriting by equalities).
+func (a *Analysis) unitFactsRaw(st *CNF) []ufact {
+	var out []ufact
+	if st == nil {
+		return out
+	}
+	for _, u := range st.units() {
+		l, pos := a.lt.get(u)
+		out = append(out, ufact{kind: l.Kind, pos: pos, A: l.A, B: l.B, C: l.C})
+	}
+	return out
+}
+
 // factGE: st establishes x >= y (terms).
 func (a *Analysis) factGE(st *CNF, x, y *Term) bool {
 	x, y = a.Canon(st, x), a.Canon(st, y)
